@@ -195,6 +195,36 @@ pub fn record(mode: &str, seed: u64, n: usize, out: &mut Out) {
                 out.emit(arg_event(&a), true);
             }
         }
+        // C01 through the public constructor: parse(Message::new(conf).as_bytes()) = the message built, whole and nothing left
+        "roundnew" => {
+            for i in 0..n {
+                let c = random_conf(&mut r, i);
+                out.calls += 3;
+                let res = match catch_unwind(AssertUnwindSafe(|| {
+                    let m = Message::new(c.clone(), None);
+                    let b = m.as_bytes();
+                    (proj::message(&m), b.clone(), slice::parse_res(&b, None, false, true))
+                })) {
+                    Ok((m, b, p)) => json!({"v": "ok", "m": m, "bytes": proj::bytes(&b), "parse": p}),
+                    Err(_) => json!({"v": "panic"}),
+                };
+                out.emit(json!({"op": "roundnew", "conf": conf_json(&c), "res": res}), true);
+            }
+        }
+        // extras: add_storage_header(None) stamps the current time
+        "stampnow" => {
+            for i in 0..n.min(40) {
+                let c = random_conf(&mut r, i);
+                let now = || std::time::SystemTime::now().duration_since(std::time::UNIX_EPOCH).map(|d| d.as_secs()).unwrap_or(0);
+                let before = now();
+                let res = catch_unwind(AssertUnwindSafe(|| Message::new(c.clone(), None).add_storage_header(None)));
+                let after = now();
+                out.calls += 1;
+                let res = match res { Ok(m) => { let t = m.storage_header.map(|s| (s.timestamp.seconds as u64, s.timestamp.microseconds)).unwrap_or((0, 0)); json!({"v": "ok", "secs_minus_before": t.0 as i64 - before as i64, "after_minus_secs": after as i64 - t.0 as i64, "us": t.1}) } Err(_) => json!({"v": "panic"}) };
+                out.emit(json!({"op": "stampnow", "res": res}), true);
+                std::thread::sleep(std::time::Duration::from_millis(37));
+            }
+        }
         // C02 (writer half, through the public constructor): Message::new(conf).as_bytes() against the layout of the message the
         // configuration describes
         "layout" => {
